@@ -11,7 +11,7 @@ let iz = Zio.int_of_z
 
 let parse_ops toks =
   let grows = ref 0 in
-  List.map
+  List.concat_map
     (fun tok ->
       let c = tok.[0] in
       let arg = String.sub tok 1 (String.length tok - 1) in
@@ -21,21 +21,24 @@ let parse_ops toks =
         | None -> ((if arg = "" then 0 else int_of_string arg), 0)
       in
       match c with
-      | 'P' -> OPush (z a)
-      | 'O' -> OPop
-      | 'L' -> OGetLocal (z a)
-      | 'S' -> OSetLocal (z a, z b)
-      | 'C' -> OCapture (z a)
-      | 'U' -> OGetUp (nat_of_int a)
-      | 'V' -> OSetUp (nat_of_int a, z b)
-      | 'X' -> OClose (z a)
-      | 'K' -> OCall (z a)
-      | 'R' -> ORet
+      | 'P' -> [ OPush (z a) ]
+      | 'O' -> [ OPop ]
+      | 'L' -> [ OGetLocal (z a) ]
+      | 'S' -> [ OSetLocal (z a, z b) ]
+      | 'C' -> [ OCapture (z a) ]
+      | 'U' -> [ OGetUp (nat_of_int a) ]
+      | 'V' -> [ OSetUp (nat_of_int a, z b) ]
+      | 'X' -> [ OClose (z a) ]
+      | 'K' -> [ OCall (z a) ]
+      | 'R' -> [ ORet ]
       | 'G' | 'g' ->
           incr grows;
-          OGrow (z ((1000000 * !grows) + 8))
-      | 'N' -> ONewVar (z a)
-      | 'T' -> OTailCall (z a, z b)
+          [ OGrow (z ((1000000 * !grows) + 8)) ]
+      | 'W' ->
+          (* Thread.rethrow: a frames discarded one by one, then stack trace (reads as 0) and error pushed *)
+          List.init a (fun _ -> OUnwind) @ [ OPush (z 0); OPush (z b) ]
+      | 'N' -> [ ONewVar (z a) ]
+      | 'T' -> [ OTailCall (z a, z b) ]
       | _ -> failwith ("token " ^ tok))
     toks
 
